@@ -13,7 +13,8 @@ ANCHORS = [('src/msmhelper/statetraj.py', ['StateTraj.__new__', 'StateTraj.__ini
                                            'LumpedStateTraj.microstates', 'LumpedStateTraj.state_assignment']),
            ('src/msmhelper/utils/_utils.py', ['format_state_traj', 'shift_data'])]
 RULE = ('random histories of 3-25 ops (quick) / up to 120 (thorough) on real StateTraj / LumpedStateTraj objects built from 1-4 trajectories in every '
-        'alphabet class and several container forms (list of arrays of the common dtype, mixed dtypes, 2-d array, lists): accessor calls (trajs, '
+        'alphabet class and several container forms (list of arrays of the common dtype, mixed dtypes, 2-d array, lists; lumped objects also with '
+        'micro data in the narrowest signed / unsigned dtype and macro labels outside that dtype): accessor calls (trajs, '
         'index_trajs, states, flattened forms, iteration, indexing with int and numpy ints, microstate_*, state_assignment, counters, repr), in-place '
         'writes into any array returned so far and into the constructor arguments, model estimation with the returned matrix / state array overwritten in '
         'place, re-construction from the object. After every op the value returned '
@@ -64,6 +65,11 @@ def cases(tier, rng, boost=1):
     yield _mk([[0, 1, 2, 3, 2, 1, 0]], [[1, 1, 2, 2, 2, 1, 1]],
               [{'op': 'access', 'acc': 'getitem', 'k': 0, 'npint': False}, {'op': 'access', 'acc': 'getitem', 'k': 0, 'npint': True},
                {'op': 'access', 'acc': 'trajs'}], 'list_of_arrays', src='corpus')
+    yield _mk([[0, 1, 2, 1, 0, 2, 2, 1]], [[300, 300, -1, 300, 300, -1, -1, 300]],
+              [{'op': 'access', 'acc': 'trajs'}, {'op': 'access', 'acc': 'states'}, {'op': 'access', 'acc': 'state_assignment'},
+               {'op': 'access', 'acc': 'trajs_flatten'}], 'narrow_signed', src='corpus')
+    yield _mk([[0, 1, 2, 1, 0, 2, 2, 1]], [[300, 300, -1, 300, 300, -1, -1, 300]],
+              [{'op': 'access', 'acc': 'trajs'}, {'op': 'access', 'acc': 'getitem', 'k': 0, 'npint': False}], 'narrow_unsigned', src='corpus')
     yield _mk([list(range(100)) * 2, list(range(200)) + list(range(199, -1, -1))], None,
               [{'op': 'access', 'acc': 'trajs'}, {'op': 'access', 'acc': 'index_trajs'}, {'op': 'access', 'acc': 'states'}], 'first_narrow', src='corpus')
     n = {'quick': 700, 'thorough': 8000, 'search': 2000}[tier] * boost
@@ -80,6 +86,11 @@ def cases(tier, rng, boost=1):
             alabs, _ = gen.alphabet(rng, m)
             macro = [[alabs[f[i]] for i in t] for t in idx]
         form = rng.choice(['list_of_arrays', 'list_of_arrays', 'mixed_arrays', 'array2d', 'list_of_lists'])
+        if lumped and rng.random() < 0.35:
+            # micro trajectories in the narrowest dtype, macro labels that do not fit into it (or negative ones next to unsigned micro data)
+            wide = rng.sample([300, 1000, 40000, -1, -300, 129, 255, 256], m)
+            macro = [[wide[f[i]] for i in t] for t in idx]
+            form = rng.choice(['narrow_signed', 'narrow_unsigned']) if min(x for t in args for x in t) >= 0 else 'narrow_signed'
         nops = rng.randint(3, 25 if tier == 'quick' else 120)
         nargs = len(args) + (len(macro) if macro else 0)
         labels = sorted({x for t in args for x in t})
@@ -97,6 +108,14 @@ def _arrays(trajs, form, rng):
         return ls, ls
     if form == 'mixed_arrays':
         arrs = gen.as_arrays(trajs, rng, mixed=True)
+        return arrs, arrs
+    if form in ('narrow_signed', 'narrow_unsigned'):
+        if form == 'narrow_unsigned' and all(x >= 0 for t in trajs for x in t):
+            hi = max(x for t in trajs for x in t)
+            dt = [d for d in (np.uint8, np.uint16, np.uint32) if hi <= np.iinfo(d).max][0]
+        else:
+            dt = gen.min_dtype(trajs)
+        arrs = [np.array(t, dtype=dt) for t in trajs]
         return arrs, arrs
     if form == 'first_narrow':
         arrs = [np.array(t, dtype=(gen.min_dtype([t]) if i == 0 else np.int64)) for i, t in enumerate(trajs)]
